@@ -41,6 +41,10 @@ class ConcreteCtx:
     def bits(self, name, w):
         return int(self._get(name, 0))
 
+    def fp(self, name):
+        import struct
+        return struct.unpack("<d", struct.pack("<Q", int(self._get(name, 0))))[0]
+
     def boolean(self, name):
         return bool(self._get(name, False))
 
